@@ -468,7 +468,10 @@ def check_sympy_table_and_matrices(idx: Index, rep: Report, d: tr.Dispatch):
         if not (br.names & {"PHASE", "RX", "RY", "RZ", "CRX", "CRY", "CRZ", "CPHASE"}):
             continue
         calls = [c for st in br.body for c in ast.walk(st) if isinstance(c, ast.Call) and isinstance(c.func, ast.Subscript)]
-        ok = bool(calls) and norm(calls[0].args[-1]) == f"{d.var}.parameter"
+        # the angle argument is gate.parameter or a local initialised from it in the loop body (string -> symbol conversion)
+        derived = {n.targets[0].id for st in d.loop.body for n in ast.walk(st) if isinstance(n, ast.Assign) and isinstance(n.targets[0], ast.Name)
+                   and norm(n.value) == f"{d.var}.parameter"}
+        ok = bool(calls) and (norm(calls[0].args[-1]) == f"{d.var}.parameter" or norm(calls[0].args[-1]) in derived)
         rep.decide(ok, rule, d.func, br.node, text=f"sympy: {{{', '.join(sorted(br.names))}}} pass gate.parameter last",
                    what="the gate's own parameter is the angle argument", reason=f"call {norm(calls[0]) if calls else '?'}")
 
